@@ -23,6 +23,7 @@ pub const K_A: u8 = 4; // expression embedded in a larger one (atom / function /
 pub const K_B: u8 = 5; // byte-valued atom
 pub const K_C: u8 = 6; // condition literal
 pub const K_L: u8 = 7; // number that makes labels unique
+pub const K_F: u8 = 8; // name of a .define flag (case-sensitive), tested with .ifdef/.ifndef in the body
 
 #[derive(Clone, Debug)]
 pub struct RawMacro {
@@ -58,7 +59,7 @@ pub struct RawMacros {
 }
 
 pub fn raw_macros() -> impl Strategy<Value = RawMacros> {
-    let mac = (proptest::collection::vec(0u8..8, 0..=10), proptest::collection::vec((any::<u8>(), any::<u8>(), any::<u8>()), 1..7), (any::<u8>(), any::<u32>()), proptest::bool::weighted(0.25))
+    let mac = (proptest::collection::vec(0u8..9, 0..=10), proptest::collection::vec((any::<u8>(), any::<u8>(), any::<u8>()), 1..7), (any::<u8>(), any::<u32>()), proptest::bool::weighted(0.25))
         .prop_map(|(kinds, body, name_case, excursion_at_end)| RawMacro { kinds, body, name_case, excursion_at_end });
     let call = (any::<u16>(), (any::<u8>(), any::<u32>()), proptest::collection::vec(any::<u8>(), 24), proptest::bool::weighted(0.3)).prop_map(|(mac, name_case, raw, before_def)| RawCall { mac, name_case, raw, before_def });
     let leg = prop_oneof![8 => Just(Leg::Valid), 1 => Just(Leg::UndefinedMacro), 1 => any::<u16>().prop_map(Leg::MissingArgument)];
@@ -77,6 +78,9 @@ pub struct Shape {
     pub conditional_in_body: bool,
     pub leg: &'static str,
 }
+
+/// `.define` flags are case-sensitive: FlagA and Flag_B are defined in the prelude, the others not.
+pub const FLAGS: &[&str] = &["FlagA", "Flag_B", "flaga", "FLAG_B", "NoFlag"];
 
 fn find_kind(kinds: &[u8], k: u8, salt: u8) -> Option<u8> {
     let c: Vec<u8> = (0..kinds.len() as u8).filter(|i| kinds[*i as usize] == k).collect();
@@ -166,6 +170,14 @@ pub fn build(r: &RawMacros) -> Built {
                 }
                 7 => body.push(Ln::st(St::Data(DKind::Db, vec![DItem::Ex(byte(a)), DItem::Ex(E::Num(b as i64)), DItem::Ex(byte(a.wrapping_add(1)))]))),
                 8 => body.push(Ln::st(St::Data(DKind::Dw, vec![DItem::Ex(E::Fn(Func::Lwrd, Box::new(atom(a))))]))),
+                9 if find_kind(kinds, K_F, a).is_some() && b & 1 == 0 => {
+                    shape.conditional_in_body = true;
+                    let f = find_kind(kinds, K_F, a).unwrap();
+                    let then_b = vec![Ln::st(St::Data(DKind::Dw, vec![DItem::Ex(E::Num(0x3333))]))];
+                    let else_b = vec![Ln::st(St::Data(DKind::Dw, vec![DItem::Ex(E::Num(0x4444))]))];
+                    let name = format!("@{}", f);
+                    body.push(Ln::st(St::If(vec![(if b & 2 == 0 { Cond::Ifdef(name) } else { Cond::Ifndef(name) }, then_b)], Some(else_b))));
+                }
                 9 => {
                     shape.conditional_in_body = true;
                     let c = find_kind(kinds, K_C, a).map(E::Arg).unwrap_or(E::Num((a % 2) as i64));
@@ -194,6 +206,7 @@ pub fn build(r: &RawMacros) -> Built {
                                     (K_Q, None) => Opnd::PtrQ(Ptr::Z, E::Num((salt % 64) as i64)),
                                     (K_C, None) => Opnd::Ex(E::Num((salt % 2) as i64)),
                                     (K_L, None) => Opnd::Ex(E::Num(0)),
+                                    (K_F, None) => Opnd::Ex(E::Flag(FLAGS[salt as usize % FLAGS.len()].to_string())),
                                     (_, None) => Opnd::Ex(E::Num(salt as i64)),
                                 };
                                 args.push(o);
@@ -284,6 +297,7 @@ pub fn build(r: &RawMacros) -> Built {
                     _ => Opnd::Ex(E::Chr(0x41 + x % 26)),
                 },
                 K_C => Opnd::Ex(E::Num([0, 1, 5, 0][x as usize % 4])),
+                K_F => Opnd::Ex(E::Flag(FLAGS[x as usize % FLAGS.len()].to_string())),
                 _ => {
                     label_no += 1;
                     Opnd::Ex(E::Num(label_no))
@@ -392,7 +406,7 @@ pub fn build(r: &RawMacros) -> Built {
             }
         }
     }
-    let mut prog = vec![Ln::st(St::Ins("nop".into(), vec![]))];
+    let mut prog = vec![Ln::st(St::Ins("nop".into(), vec![])), Ln::st(St::Define("FlagA".into())), Ln::st(St::Define("Flag_B".into()))];
     prog.extend(before);
     prog.extend(defs);
     prog.extend(after);
